@@ -235,6 +235,11 @@ def eval_cond(c: Any, pt: dict[str, Fraction]) -> bool | None:
         if all(v is False for v in vals):
             return False
         return None
+    if isinstance(c, sympy.ITE):
+        t = eval_cond(c.args[0], pt)
+        if t is None:
+            return None
+        return eval_cond(c.args[1] if t else c.args[2], pt)
     if isinstance(c, sympy.Not):
         v = eval_cond(c.args[0], pt)
         return None if v is None else (not v)
